@@ -1397,6 +1397,9 @@ func runJournalTrips(c *Ctx) {
 					got[i] = strings.ReplaceAll(got[i], "new(journal.Trip)", "X")
 				}
 			}
+			for i := range got {
+				got[i] = afterAsBefore(got[i])
+			}
 			sort.Strings(got)
 			want := []string{
 				"!time.Time.Before(X.StartTime,param:<time.Time#0>)",
@@ -2228,4 +2231,39 @@ func runUIDSuffix(c *Ctx, rule string) {
 		}
 	}
 	c.Check(bad == "" && n > 0, rule, shortName(uidFn), "the UID drops the first six characters of the trip id and nothing else", p.pos(uidFn.Pos()), fmt.Sprintf("%d cut of the id, at the constant 6; no search for a separator", n), bad+": trip ids that differ only in the part that is now dropped share one journal entry (the updates of one trip are aligned against the stop list of the other)")
+}
+
+// afterAsBefore rewrites an atom [!]time.Time.After(a,b) as [!]time.Time.Before(b,a): the two say the same.
+func afterAsBefore(atom string) string {
+	neg := strings.HasPrefix(atom, "!")
+	body := strings.TrimPrefix(atom, "!")
+	const head = "time.Time.After("
+	if !strings.HasPrefix(body, head) || !strings.HasSuffix(body, ")") {
+		return atom
+	}
+	args := body[len(head) : len(body)-1]
+	depth, cut := 0, -1
+	for i, r := range args {
+		switch r {
+		case '(', '[', '<', '{':
+			depth++
+		case ')', ']', '>', '}':
+			depth--
+		case ',':
+			if depth == 0 {
+				if cut >= 0 {
+					return atom
+				}
+				cut = i
+			}
+		}
+	}
+	if cut < 0 || depth != 0 {
+		return atom
+	}
+	out := "time.Time.Before(" + args[cut+1:] + "," + args[:cut] + ")"
+	if neg {
+		out = "!" + out
+	}
+	return out
 }
